@@ -27,7 +27,8 @@ def model(rep, max_len):
     cfg = tlc.write_cfg(os.path.join(wd, 'mc.cfg'), constants={
         'MaxLen': max_len, 'Sample': 2, 'Ahead': 2, 'SwallowCast': 'FALSE', 'SrcRows': '<- SrcRowsSmall',
         'Kinds': '{' + ', '.join('"%s"' % k for k in KINDS_NOFAULT) + '}'},
-        invariants=['NoDeadlock', 'LazyEqualsEager', 'ObserverComplete', 'AllObserversCommit', 'FinalizerOnce'])
+        invariants=['NoDeadlock', 'LazyEqualsEager', 'ObserverComplete', 'AllObserversCommit', 'FinalizerOnce'],
+        spec='FairSpec', properties=['Terminates'])
     res = tlc.run_tlc('Engine', cfg, allow_violation=False, timeout=3000, coverage=True)
     rep.add_tlc(res, 'Engine MaxLen=%d kinds=%s: LazyEqualsEager, NoDeadlock, ObserverComplete' % (max_len, ','.join(KINDS_NOFAULT)))
     # the model explains a design rule: the copy made by duplicate holds what had streamed when it is asked for, so a
